@@ -27,7 +27,7 @@ def legs(tier):
 
 
 def bounds(tier):
-    return {"max_chain": 3 if tier == "quick" else 4}
+    return {"max_chain": 3 if tier == "quick" else 5}
 
 
 _W = {}
